@@ -28,6 +28,27 @@ mod realhelp {
     pub fn raw<T>(s: &str) -> ruma_common::serde::Raw<T> {
         ruma_common::serde::Raw::from_json(serde_json::value::to_raw_value(&serde_json::json!({ "body": s })).unwrap())
     }
+    /// a room event filter whose shape is chosen by the length of the string
+    pub fn room_event_filter(s: &str) -> ruma_client_api::filter::RoomEventFilter {
+        use ruma_client_api::filter::RoomEventFilter;
+        let mut f = RoomEventFilter::default();
+        match s.chars().count() % 7 {
+            0 => {}
+            1 => f = RoomEventFilter::ignore_all(),
+            2 => f.rooms = Some(vec![]),
+            3 => f.senders = Some(vec![]),
+            4 => {
+                f.types = Some(vec![s.to_owned()]);
+                f.limit = Some(js_int::uint!(7));
+            }
+            5 => f.not_types = vec![s.to_owned()],
+            _ => {
+                f.types = Some(vec![]);
+                f.not_senders = uid("a").into_iter().collect();
+            }
+        }
+        f
+    }
     pub fn rawjson(s: &str) -> Box<serde_json::value::RawValue> {
         serde_json::value::to_raw_value(&serde_json::json!({ "k": s })).unwrap()
     }
@@ -61,6 +82,35 @@ fn real_eps() -> Vec<Ep> {
     use ruma_client_api as c;
     use ruma_federation_api as f;
     vec![
+        // ---- federation media: multipart/mixed with a random boundary (compared by value) ----------
+        Ep {
+            name: "federation::authenticated_media::get_content",
+            nvals: 2,
+            meta: || <f::authenticated_media::get_content::v1::Request as OutgoingRequest>::METADATA,
+            req: |v: &[String], cx: &ReqCtx<'_>| Some(rt_request(f::authenticated_media::get_content::v1::Request::new(v[0].clone()), cx)),
+            resp: |v: &[String]| {
+                use f::authenticated_media::{Content, ContentMetadata, FileOrLocation};
+                // the payload ends (or consists) of bytes a lenient text parser would trim (seed5 C16-2)
+                const TAILS: [&str; 8] = ["", "\n", " ", "\r\n", "\t", "\r\n--", "\x0c", "\r\n\r\n"];
+                let mut file = v[0].as_bytes().to_vec();
+                let k = v[1].chars().count();
+                file.extend_from_slice(TAILS[k % 8].as_bytes());
+                if k % 5 == 4 {
+                    file = TAILS[k % 8].as_bytes().to_vec();
+                }
+                let content = if k % 9 == 8 {
+                    if !v[0].is_ascii() || v[0].chars().any(|c| c.is_control()) || v[0].is_empty() {
+                        return None;
+                    }
+                    FileOrLocation::Location(v[0].clone())
+                } else {
+                    let disp = ruma_common::http_headers::ContentDisposition::new(ruma_common::http_headers::ContentDispositionType::Attachment)
+                        .with_filename(Some("a.txt".to_owned()));
+                    FileOrLocation::File(Content::new(file, "text/plain".to_owned(), disp))
+                };
+                Some(rt_response_by_value(f::authenticated_media::get_content::v1::Response::new(ContentMetadata::new(), content)))
+            },
+        },
         // ---- client-server --------------------------------------------------------------------
         ep!("client::profile::get_display_name", 2, c::profile::get_display_name::v3,
             |v| c::profile::get_display_name::v3::Request::new(uid(&v[0])?),
@@ -145,6 +195,14 @@ fn real_eps() -> Vec<Ep> {
         ep!("client::message::send_message_event", 4, c::message::send_message_event::v3,
             |v| c::message::send_message_event::v3::Request::new_raw(rid(&v[0])?, txn(&v[1]), v[2].as_str().into(), raw(&v[3])),
             |v| Some(c::message::send_message_event::v3::Response::new(eid(&v[0])?))),
+        // the JSON-in-query `filter` parameter: omitted when RoomEventFilter::is_empty; an EMPTY allow-list
+        // (Some([]) = allow nothing) is not an absent one (seed5 C16-1)
+        ep!("client::message::get_message_events+filter", 2, c::message::get_message_events::v3,
+            |v| { let mut r = c::message::get_message_events::v3::Request::new(rid(&v[0])?, ruma_common::api::Direction::Backward); r.filter = room_event_filter(&v[1]); r },
+            |_v| None),
+        ep!("client::context::get_context+filter", 2, c::context::get_context::v3,
+            |v| { let mut r = c::context::get_context::v3::Request::new(rid(&v[0])?, eid(&v[0])?); r.filter = room_event_filter(&v[1]); r },
+            |_v| None),
         ep!("client::message::get_message_events", 3, c::message::get_message_events::v3,
             |v| { let mut r = c::message::get_message_events::v3::Request::new(rid(&v[0])?, ruma_common::api::Direction::Forward); r.from = Some(v[1].clone()); r.to = Some(v[2].clone()); r },
             |v| { let mut r = c::message::get_message_events::v3::Response::new(); r.start = v[0].clone(); r.end = Some(v[1].clone()); Some(r) }),
